@@ -227,6 +227,7 @@ func (ex *Exec) atLoopHead(st *State, lp *Loop, predIdx int) bool {
 	}
 	// first arrival: havoc loop targets, assume invariant, continue
 	st.loopSeen[h] = true
+	st.callsLost = true
 	ex.havocLoop(st, lp)
 	newPhi := map[*ssa.Phi]Term{}
 	for _, in := range h.Instrs {
@@ -892,6 +893,22 @@ func (ex *Exec) applyContract(st *State, c *ssa.Call, con0 *Contract, bindings [
 			st.vals[c] = results[0]
 		default:
 			st.tuples[c] = results
+		}
+		cc := c.Common()
+		_, isFn := cc.Value.(*ssa.Function)
+		_, isClo := cc.Value.(*ssa.MakeClosure)
+		if cc.IsInvoke() || (!isFn && !isClo) {
+			// the call log records calls governed by the Parser contract
+			for _, x := range cons {
+				if x.Target == "parsley.Parser.Parse" {
+					rec := CallRec{Args: args, Results: results}
+					if !cc.IsInvoke() {
+						rec.Args = append([]Term{intLit(0)}, args...)
+					}
+					st.calls = append(st.calls, rec)
+					break
+				}
+			}
 		}
 	}
 }
